@@ -385,16 +385,43 @@ def w_real_sockets(ctx: core.Ctx, arg):
         wraps[id(res)] = self
         return res
     ssl.SSLContext.wrap_socket = wrap_socket
+    # second monitor, independent of who wraps what: the first bytes that python code writes to a plain TCP socket.  An SSLSocket writes through
+    # the ssl module (never through socket.socket.send), asyncio / aiohttp TLS writes the records it produced in memory through the plain socket:
+    # whatever is written to a plain TCP socket that is connected to a TLS endpoint of this run must therefore start with a TLS record header.
+    first_bytes = {}  # id(sock) -> (peer address, own address, first bytes)
+    fb_lock = threading.Lock()
+    o_send, o_sendall = socket.socket.send, socket.socket.sendall
+
+    def _rec(sock, data):
+        if type(sock) is not socket.socket or sock.family not in (socket.AF_INET, socket.AF_INET6) or sock.type != socket.SOCK_STREAM:
+            return
+        try:
+            peer, own = sock.getpeername(), sock.getsockname()
+        except OSError:
+            return
+        with fb_lock:
+            if id(sock) not in first_bytes:
+                first_bytes[id(sock)] = (peer, own, bytes(data[:5]), sock)
+
+    def send(self, data, *a):
+        _rec(self, data)
+        return o_send(self, data, *a)
+
+    def sendall(self, data, *a):
+        _rec(self, data)
+        return o_sendall(self, data, *a)
+    socket.socket.send, socket.socket.sendall = send, sendall
     pcont, ccont = contexts('provider'), contexts('consumer')
     provider = consumer = None
+    async_provider = bool(arg.get('async_provider'))
     try:
         mdib = ProviderMdib.from_string(load_mdib_bytes('mdib_tns.xml'))
         model, device = mk_model_and_device()
-        # synchronous components: http.client connections go through SSLContext.wrap_socket, which the recorder observes
-        # (asyncio / aiohttp wrap with memory BIOs and cannot be attributed to a socket from outside)
-        from sdc11073.provider.providerimpl import provider_components_sync_factory
+        # synchronous components: http.client connections go through SSLContext.wrap_socket, which the recorder observes; asyncio / aiohttp
+        # (the default provider components) wrap with memory BIOs and are judged by the first-bytes monitor
+        from sdc11073.provider.providerimpl import provider_components_async_factory, provider_components_sync_factory
         provider = SdcProvider(WsdStub('127.0.0.1'), model, device, mdib, ssl_context_container=pcont, max_subscription_duration=60,
-                               components=provider_components_sync_factory())
+                               components=provider_components_async_factory() if async_provider else provider_components_sync_factory())
         provider.start_all(start_rtsample_loop=False)
         xaddr = provider.get_xaddrs()[0]
         consumer = SdcConsumer(xaddr, SdcV1Definitions, ssl_context_container=ccont, force_ssl_connect=True)
@@ -415,27 +442,41 @@ def w_real_sockets(ctx: core.Ctx, arg):
         consumer_port = consumer._http_server.server_port
         if not xaddr.startswith('https://'):
             ctx.witness('url.provider_endpoint_advertised_plaintext', 'xAddr of a TLS provider uses http', {'xaddr': xaddr})
+        for sub in list(consumer._subscription_mgr.subscriptions.values()):
+            sub.renew(60)
+            sub.get_status()
         consumer.stop_all()
         provider.stop_all()
         for sid, addr, sock in connects:
             if addr[1] in (provider_port, consumer_port):
                 ctx.count('real.tcp_connections')
                 expected = ccont.client_context if addr[1] == provider_port else pcont.client_context
+                if async_provider and addr[1] == consumer_port:
+                    continue  # asyncio TLS: judged by the first-bytes monitor below
                 if wraps.get(sid) is not expected:
                     ctx.witness('connect.real_socket_not_wrapped', 'a TCP connection to a TLS endpoint was not wrapped by the expected TLS client context',
-                                {'addr': list(addr), 'wrapped_by': repr(wraps.get(sid))})
-        ctx.case(('real', 'tls-both-enforced'))
-        ctx.case(('real', 'connections', len(connects) > 2))
+                                {'addr': list(addr), 'wrapped_by': repr(wraps.get(sid)), 'async_provider': async_provider})
+        for peer, own, head, _sock in list(first_bytes.values()):
+            if peer[1] in (provider_port, consumer_port) or own[1] in (provider_port, consumer_port):
+                ctx.count('real.plain_socket_streams_checked')
+                ctx.count('real.plain_socket_streams_checked.' + ('async_provider' if async_provider else 'sync_provider'))
+                if not (len(head) >= 3 and head[0] in (0x14, 0x15, 0x16, 0x17) and head[1] == 0x03):
+                    ctx.witness('connect.real_plaintext_bytes', 'bytes that are not a TLS record were written to a TCP connection of a TLS endpoint',
+                                {'peer': list(peer), 'own': list(own), 'first_bytes': head, 'async_provider': async_provider,
+                                 'towards': 'provider' if peer[1] == provider_port else 'consumer' if peer[1] == consumer_port else 'client'})
+        ctx.case(('real', 'tls-both-enforced', async_provider))
+        ctx.case(('real', 'connections', async_provider, len(connects) > 2))
     except Exception as ex:  # noqa: BLE001
         ctx.not_decided(f'real-socket sub-check could not run: {ex!r}')
     finally:
         ssl.SSLContext.wrap_socket = orig_wrap
+        socket.socket.send, socket.socket.sendall = o_send, o_sendall
 
 
 def run(ctx: core.Ctx):
     ctx.rule = ('configuration enumeration: provider TLS {off,on} x consumer {none, optional, enforced} x {sync, async} x alternative host name '
                 '(24 loop-back runs, each with start-up, subscription, 5 transactions, operation, renew, GetStatus, unsubscribe, shutdown); '
-                'handshake matrix {trusted, untrusted, no certificate} x direction; one real-socket run.  distinct = configuration + outcome')
+                'handshake matrix {trusted, untrusted, no certificate} x direction; two real-socket runs (sync / async provider components).  distinct = configuration + outcome')
     jobs = []
     first = True
     for provider_tls in (False, True):
@@ -449,7 +490,8 @@ def run(ctx: core.Ctx):
         for async_mgr in (False, True):
             jobs.append(['w_loopback', {'provider_tls': True, 'consumer': 'enforced', 'async_mgr': async_mgr, 'alt_host': False, 'offsite_wsdl': scheme}])
     jobs.append(['w_contexts', {}])
-    jobs.append(['w_real_sockets', {}])
+    jobs.append(['w_real_sockets', {'async_provider': False}])
+    jobs.append(['w_real_sockets', {'async_provider': True}])
     core.fanout(ctx, MODULE, 'dispatch', jobs, timeout=600)
     ctx.exhaustive = True
     ctx.extra['exhaustive_part'] = 'the configuration space listed in rule; traffic per configuration is one scripted session'
@@ -458,10 +500,11 @@ def run(ctx: core.Ctx):
     ctx.floor('loopback.offsite_wsdl_locations_planted', 4)
     ctx.floor('loopback.connections_recorded', 30)
     ctx.floor('contexts.handshakes', 10)
-    ctx.floor('real.tcp_connections', 2)
+    ctx.floor('real.tcp_connections', 4)
+    ctx.floor('real.plain_socket_streams_checked.async_provider', 1)
     ctx.assumptions += ['loop-back: a TLS / plaintext mismatch is emulated by the transport (SSLError resp. connection reset), no real handshake',
                         'handing a plaintext shared server to a TLS-enforced consumer is an application contradiction and not generated',
-                        'real-socket run uses the synchronous provider components (asyncio TLS is not attributable to a socket from outside)']
+                        'real-socket runs: connections of http.client are attributed to the wrapping SSLContext; asyncio TLS (async provider components) is judged by the first bytes written to the plain socket (must be a TLS record header)']
 
 
 def dispatch(ctx: core.Ctx, job):
